@@ -69,7 +69,7 @@ NEG = {
     "C17": [("anomaliser-inclusive-comparison", "Anomaliser", an_consts(N=3, Cmp="inclusive"), ["FlagsExactly"], "Init", None),
             ("anomaliser-merges-adjacent", "Anomaliser", an_consts(N=3, Adjacent="merge"), ["FlagsExactly"], "Init", None),
             ("anomaliser-fits-wrapped", "Anomaliser", an_consts(N=3, FitTarget="wrapped"), ["WrappedUntouched"], "Init", None)],
-    "C18": [("generators-upper-bound-only", "Generators", dict(N=3, P=1, MaxK=1, Check="upper_only", Emit=False, NSlices=1, Slice=0),
+    "C18": [("generators-upper-bound-only", "Generators", dict(N=3, P=1, MaxK=1, Check="upper_only", Emit=False, NSlices=1, Slice=0, Profile="distinct"),
              ["RaisesIffInconsistent", "NoSilentWrap"], "Init", None)],
 }
 from .costparams import NEG as _cp_neg  # noqa: E402
